@@ -1,11 +1,18 @@
 """C01 - reads return only the latest value written for that key (linearizable map)."""
-import storecheck
+import storecheck, rbcheck
+
+
+def extra(work, v, thorough):
+    # the shard lock the atomic shard sections of Store.tla rest on (model checking of RBMutex.tla is part of C19)
+    return rbcheck.run(work, v, "C01", thorough, with_model=False)
 
 PLAN = {
     "mc": [("StoreMC_acct.cfg", False), ("StoreMC_exp_small.cfg", True)],
     "sims": [("StoreSim_acct.cfg", 200, 1500, 61)],
     "drivers": [("TestVerif_StoreFree", 10, 60, "store_free.ndjson", None)],
+    "extra": extra,
     "assumptions": [
+        "the atomicity of a shard section is the contract of internal/rbmutex.go: the real RBMutex is stepped through its atomic operations and compared with RBMutex.tla (model-checked under C19); a writer inside together with a reader or another writer is reported here too",
         "linearization events are recorded under the shard lock by the verif hooks; the value each call returns is compared with the value read under the lock, and the map contents with the history at every quiescent snapshot",
         "Store.tla models each shard critical section as one atomic action; removal of a map slot by eviction/expiry is by identity",
         "with the entry pool on, entry identities are re-assigned at every insertion",
